@@ -365,7 +365,7 @@ func c04Guard(e *Env, prm *ssa.Function) {
 	rule := "C04.R4"
 	if f := e.fn(rule, bw+".getCachedReceivedMessage"); f != nil {
 		// every successful Acquire is either released on the error exits or handed out in the returned close function
-		acqs := core.CallsNamed(f, "golang.org/x/sync/semaphore.Weighted.Acquire")
+		acqs := guardAcquisitions(f)
 		ok := len(acqs) >= 2
 		for _, ret := range core.ReturnsOf(f) {
 			if !core.IsNilConst(core.RetVal(ret, 2)) {
